@@ -441,21 +441,32 @@ def _check_roundtrip(b, check, inp, assign, read, expect):
     return True
 
 
+TARGET_PREFIXES = ["/p;x", "//static/app.js", "//a/b/c;p", "/a//b/", "/", "/a:b/c@d", "/http://other.example/x", "/a%2Fb/c", "///x"]
+
+
 def _t2_query_and_form(b, tier, seed):
     lists = _lists(STRS, 2 if tier == "quick" else 3, tier, seed, 1500 if tier == "quick" else 20000)
     for pl in lists:
         inp = {"pairs": repr(pl)}
         b.case(("query", repr(pl)), nontrivial=bool(pl))
-        r = _mkreq("/p;x?old=1#frag")
-        ok = _check_roundtrip(b, "query.roundtrip", inp, lambda: setattr(r, "query", pl), lambda: _pairs(r.query.items(multi=True)), _pairs(pl))
-        if ok:
-            # the rest of the target is untouched and the wire text decodes to the same pairs under the reference reader
-            path = r.path
-            q = path[len("/p;x"):-len("#frag")]
-            if not path.startswith("/p;x") or not path.endswith("#frag") or r.data.path.decode("ascii", "replace") != path or (q != "" and not q.startswith("?")):
-                b.fail("query.frame", inp, f"path became {path!r}")
-            elif ref_form_decode(q[1:]) != _pairs(pl):
-                b.fail("query.wire_means_the_pairs", inp, f"{path!r} decodes (reference) to {ref_form_decode(q[1:])!r}")
+        # every shape of the part of the request target before the query: ordinary, with parameters, with empty segments
+        # (a leading '//' must not be mistaken for an authority), with ':' '@' and an embedded absolute URL, percent-encoded '/'
+        prefixes = TARGET_PREFIXES if len(pl) <= 1 else TARGET_PREFIXES[:2]
+        for prefix in prefixes:
+            if prefix != TARGET_PREFIXES[0]:
+                b.case(("query", prefix, repr(pl)), nontrivial=True)
+            r = _mkreq(prefix + "?old=1#frag")
+            inp = {"pairs": repr(pl), "target": prefix + "?old=1#frag"}
+            ok = _check_roundtrip(b, "query.roundtrip", inp, lambda: setattr(r, "query", pl), lambda: _pairs(r.query.items(multi=True)), _pairs(pl))
+            if ok:
+                # the rest of the target is untouched and the wire text decodes to the same pairs under the reference reader
+                path = r.path
+                q = path[len(prefix):-len("#frag")]
+                if not path.startswith(prefix) or not path.endswith("#frag") or r.data.path.decode("ascii", "replace") != path or (q != "" and not q.startswith("?")):
+                    b.fail("query.frame", inp, f"path became {path!r}")
+                elif ref_form_decode(q[1:]) != _pairs(pl):
+                    b.fail("query.wire_means_the_pairs", inp, f"{path!r} decodes (reference) to {ref_form_decode(q[1:])!r}")
+        inp = {"pairs": repr(pl)}
         b.case(("form", repr(pl)), nontrivial=bool(pl))
         r = _mkreq(headers=[(b"content-type", b"text/plain")], content=b"old")
         # (the previous body 'old' is in the "key without '='" style, which the encoder imitates: an all-empty pair cannot be written in that style)
@@ -584,17 +595,19 @@ def _t2_path_components(b, tier, seed):
         has_empty = "" in cl
         inp = {"components": repr(cl), "class": "empty-component" if has_empty else "plain"}
         b.case(("path", repr(cl)), nontrivial=bool(cl))
-        r = _mkreq("/old/path;p?q=1#f")
-        ok = _check_roundtrip(b, "path_components.roundtrip" + ("[empty-component]" if has_empty else ""), inp,
-                              lambda: setattr(r, "path_components", cl), lambda: list(r.path_components), list(cl))
-        if not r.path.endswith(";p?q=1#f"):
-            b.fail("path_components.frame", inp, f"path became {r.path!r}")
+        for start in ("/old/path;p?q=1#f", "//old/path;p?q=1#f"):
+            r = _mkreq(start)
+            ok = _check_roundtrip(b, "path_components.roundtrip" + ("[empty-component]" if has_empty else ""), dict(inp, start=start),
+                                  lambda: setattr(r, "path_components", cl), lambda: list(r.path_components), list(cl))
+            if not r.path.endswith(";p?q=1#f"):
+                b.fail("path_components.frame", dict(inp, start=start), f"path became {r.path!r}")
 
 
 def _t2_writeback(b, tier, seed):
     """writing a view's current value back leaves the meaning (what the view and the reference reader see) and the rest of the message unchanged,
     and is idempotent"""
-    targets = ["/p", "/p?", "/p?a=1", "/p?a=1&b=2&a=3", "/p?a", "/p?a=&b", "/p?=v", "/p?a=%41%20+b", "/p?a=1&&b=2", "/p;x=1?a=b#frag", "/p?a=b=c", "/p?%E9=%FF", "/p?a=1;b=2", "/?a=/&b=?"]
+    targets = ["/p", "/p?", "/p?a=1", "/p?a=1&b=2&a=3", "/p?a", "/p?a=&b", "/p?=v", "/p?a=%41%20+b", "/p?a=1&&b=2", "/p;x=1?a=b#frag", "/p?a=b=c", "/p?%E9=%FF", "/p?a=1;b=2", "/?a=/&b=?",
+               "//static/app.js?v=1", "//a/b/c;p?x=%26&x=2#frag", "/a//b/?x=1", "/a:b/c@d?x=1", "/http://other.example/x?u=1", "///x?y=2", "//only"]
     for t in targets:
         r = _mkreq(t)
         before = _pairs(r.query.items(multi=True))
